@@ -228,11 +228,29 @@ impl Gitignore {
         let mut path = self.strip(path.as_ref());
         assert!(!path.has_root(), "path is expected to be under the root");
 
+        // Nothing beneath an ignored directory can be re-included, so an
+        // ignored ancestor decides, top-most first (as in a top-down walk).
+        let ancestors: Vec<&Path> = path
+            .ancestors()
+            .skip(1)
+            .filter(|p| !p.as_os_str().is_empty())
+            .collect();
+        for parent in ancestors.into_iter().rev() {
+            if let m @ Match::Ignore(_) =
+                self.matched_stripped(parent, /* is_dir */ true)
+            {
+                return m;
+            }
+        }
         match self.matched_stripped(path, is_dir) {
             Match::None => (), // walk up
             a_match => return a_match,
         }
         while let Some(parent) = path.parent() {
+            // The root of this matcher is never itself a candidate.
+            if parent.as_os_str().is_empty() {
+                break;
+            }
             match self.matched_stripped(parent, /* is_dir */ true) {
                 Match::None => path = parent, // walk up
                 a_match => return a_match,
